@@ -602,9 +602,48 @@ pub fn layout_seeds(tier: &str) -> Vec<(Seed, PlanOpts)> {
             g.bytes(&sl).bytes(&fl).bytes(&ll);
             g.done()
         };
+        // contextual lookups that invoke themselves: a rule (one input glyph, coverage [1]) whose lookup record names the lookup
+        // it belongs to, and two chaining lookups that name each other; every kind of contextual lookup must use up the
+        // nesting budget, whichever kinds the cycle is made of
+        let chain3_calls = |lookup: u16| {
+            let mut w = W::new();
+            w.u16(3).u16(0).u16(1).u16(16).u16(0).u16(1).u16(0).u16(lookup).u16(1).u16(1).u16(1);
+            w.done()
+        };
+        let ctx3_calls = |lookup: u16| {
+            let mut w = W::new();
+            w.u16(3).u16(1).u16(1).u16(12).u16(0).u16(lookup).u16(1).u16(1).u16(1);
+            w.done()
+        };
+        let two_lookups = |feature: &[u8; 4], lookup_type: u16, a: Vec<u8>, b: Vec<u8>| -> Vec<u8> {
+            let mut sl = W::new();
+            sl.u16(2).tag(otmodel::tag(b"DFLT")).u16(14).tag(otmodel::tag(b"latn")).u16(14);
+            sl.u16(4).u16(0).u16(0).u16(0xFFFF).u16(1).u16(0);
+            let sl = sl.done();
+            let mut fl = W::new();
+            fl.u16(1).tag(otmodel::tag(feature)).u16(8).u16(0).u16(1).u16(0);
+            let fl = fl.done();
+            let mut l0 = W::new();
+            l0.u16(lookup_type).u16(0).u16(1).u16(8).bytes(&a);
+            let l0 = l0.done();
+            let mut l1 = W::new();
+            l1.u16(lookup_type).u16(0).u16(1).u16(8).bytes(&b);
+            let l1 = l1.done();
+            let mut ll = W::new();
+            ll.u16(2).u16(6).u16((6 + l0.len()) as u16).bytes(&l0).bytes(&l1);
+            let ll = ll.done();
+            let mut g = W::new();
+            g.u16(1).u16(0).u16(10).u16((10 + sl.len()) as u16).u16((10 + sl.len() + fl.len()) as u16);
+            g.bytes(&sl).bytes(&fl).bytes(&ll);
+            g.done()
+        };
         let cmap = [(0x41u32, 1u16), (0x42, 2), (0x66, 3), (0x69, 4)];
         let opts = PlanOpts { truncations: false, structure: false, layout_only: true, ..PlanOpts::full() };
         for (name, tables) in [
+            ("chain-context-3-whose-record-names-its-own-lookup-gsub+gpos", vec![(tag::GSUB, table(b"calt", 6, chain3_calls(0))), (tag::GPOS, table(b"kern", 8, chain3_calls(0)))]),
+            ("context-3-whose-record-names-its-own-lookup-gsub+gpos", vec![(tag::GSUB, table(b"calt", 5, ctx3_calls(0))), (tag::GPOS, table(b"kern", 7, ctx3_calls(0)))]),
+            ("two-chain-context-3-lookups-that-name-each-other-gsub+gpos", vec![(tag::GSUB, two_lookups(b"calt", 6, chain3_calls(1), chain3_calls(0))), (tag::GPOS, two_lookups(b"kern", 8, chain3_calls(1), chain3_calls(0)))]),
+            ("context-3-and-chain-context-3-that-name-each-other-gsub", vec![(tag::GSUB, { let mut g = two_lookups(b"calt", 6, chain3_calls(1), ctx3_calls(0)); let ll = u16::from_be_bytes([g[8], g[9]]) as usize; let l1 = ll + u16::from_be_bytes([g[ll + 4], g[ll + 5]]) as usize; g[l1 + 1] = 5; g })]),
             ("context-3-first-record-deletes-the-glyph-second-addresses-it", vec![(tag::GSUB, deleting_context())]),
             ("malformed-chain-context-3-without-input-gsub+gpos", vec![(tag::GSUB, table(b"calt", 6, chain3_empty())), (tag::GPOS, table(b"kern", 8, chain3_empty()))]),
             ("malformed-context-3-without-input-gsub+gpos", vec![(tag::GSUB, table(b"calt", 5, ctx3_empty())), (tag::GPOS, table(b"kern", 7, ctx3_empty()))]),
